@@ -125,29 +125,24 @@ def l1_order_scenarios():
     return out
 
 
-def l1_classify(t, r):
-    """Signature of a rejected layer-1 trace: obligation + what makes the class specific."""
+def classify(t, r):
+    """Signature of a rejected trace: the violated obligation + what makes the class specific."""
     d = (r["detail"] or r["reason"]).strip('"')
     ev = r["event"] or {}
-    if d == "mirror-order:priority":
-        # S1: is the observed first-offer order exactly what an ascending sort of the priorities gives?
-        hosts, prio, up = t["header"]["hosts"], t["header"]["prio"], t["header"]["up"]
-        pr = dict(zip(hosts, prio))
-        asc = True
-        seen = []
-        for e in t["events"]:
-            if e["ev"] in ("do", "seek", "read", "op"):
-                seen = []
-            if e["ev"] == "att" and e.get("mir") == 1:
-                if e["h"] not in seen:
-                    if seen and (pr[seen[-1]], seen[-1] == up) > (pr[e["h"]], e["h"] == up) and e.get("first", 1):
-                        asc = False
-                    seen.append(e["h"])
-                if e["k"] in ("ok", "trunc"):
-                    seen = []
-        return "mirror-order:priority-ascending" if asc else "mirror-order:priority-other"
     if d == "no-termination":
         return "no-termination:" + str(ev.get("where", "?"))
+    if d == "mirror-order:priority-ascending":
+        return d
+    if t["scenario"].get("layer") == 2:
+        # S2: the same PATCH is re-sent although the previous, identical one was answered 416
+        i = r["line"]
+        prev = t["events"][i - 1] if i and i > 0 else {}
+        if ev.get("cl") == "upload_patch" and prev.get("cl") == "upload_patch" and prev.get("k") == "rng" and \
+                (prev.get("sig"), prev.get("crng")) == (ev.get("sig"), ev.get("crng")):
+            return d + ":upload-416-loop:" + t["scenario"]["scenario"]["op"]
+        return d + ":" + l2_class(t, r)
+    if t["scenario"].get("layer") == "up":
+        return d + ":upload"
     return d
 
 
@@ -186,35 +181,180 @@ def run_l1(ctx, rng, cov):
              "meta": t["meta"]} for t, s in zip(traces, scns)]
 
 
+# --------------------------------------------------------------------------- layer 2
+def mirror_confs(op, thorough):
+    """(mirrors, upprio): each mirror independently has / lacks / fails the content."""
+    M = lambda n, p, m: {"name": n + ".test", "prio": p, "mode": m}
+    if op not in READ_OPS:
+        c = [([], 0), ([M("m1", 0, "has")], 0)]
+        if thorough:
+            c += [([M("m1", 0, "has"), M("m2", 0, "fails")], 0), ([M("m1", 2, "has")], 1)]
+        return c
+    # A mirror that lacks the repository answers a referrers query with an empty list (200), so the
+    # result would depend on which of two equal mirrors is asked first: no valid oracle, left out.
+    modes = ("has", "fails") if op.startswith("referrer-list") else ("has", "lacks", "fails")
+    c = [([], 0)]
+    for m1 in modes:
+        c.append(([M("m1", 0, m1)], 0))
+    for m1, m2 in itertools.product(modes, repeat=2):
+        c.append(([M("m1", 0, m1), M("m2", 0, m2)], 0))
+    # distinct priorities (the documented order is descending): known finding S1 lives here
+    c.append(([M("m1", 2, "has"), M("m2", 1, "has")], 0))
+    c.append(([M("m1", 1, modes[1]), M("m2", 2, "has")], 0))
+    c.append(([M("m1", 0, "has")], 1))
+    return c
+
+
+def l2_key(s):
+    return json.dumps([s["op"], s["R"], s["upprio"], s["mirrors"]], sort_keys=True)
+
+
+def l2_class(t, r):
+    """What makes a rejected layer-2 trace specific: operation, the request class at which the
+    monitor rejected (+cont: a paging continuation while mirrors are configured), the classes of
+    the requests that received an injected fault, the fault kinds."""
+    s = t["scenario"]["scenario"]
+    ev = r["event"] or {}
+    kinds = sorted({f["kind"] for f in s.get("faults", [])})
+    if s.get("persist"):
+        kinds.append("P" + s["persist"]["kind"] + "/" + (s["persist"]["class"] or "all"))
+    cl = ev.get("cl", ev.get("ev", "?"))
+    if "last=" in ev.get("sig", "") and s["mirrors"]:
+        cl += "+cont"
+    hit = sorted({e["cl"] + ("+cont" if "last=" in e["sig"] else "") for e in t["events"] if e["ev"] == "att" and e.get("inj") == 1})
+    return "%s:%s:faulted=%s:%s" % (s["op"], cl, ",".join(hit) or "none", "+".join(kinds) or "none")
+
+
+def run_l2(ctx, rng, cov):
+    thorough = ctx.thorough
+    # 1. fault free: request positions of every operation under every configuration
+    base = []
+    for op in OPS:
+        for mirrors, upprio in mirror_confs(op, thorough):
+            for R in ([1, 2, 3] if thorough else [2, 3]):
+                base.append({"id": "probe-%d" % len(base), "op": op, "R": R, "upprio": upprio, "mirrors": mirrors,
+                             "faults": [], "di_us": 2000})
+    probes = drive(ctx, "l2probe", base, "l2probe", par=24)
+    info = {}
+    for s, t in zip(base, probes):
+        if t["meta"]["ff_ret"] == "err" and not any(m["mode"] != "has" for m in s["mirrors"]):
+            raise vlib.ToolError("fault-free %s fails: the driver or simreg is broken" % s["op"])
+        info[l2_key(s)] = (t["meta"]["ff_n"], t["meta"]["classes"])
+    # 2. fault plans
+    singles, doubles, persist = [], [], []
+    for s in base:
+        n, classes = info[l2_key(s)]
+        for pos in range(1, n + 2):
+            for kind in FAULTS:
+                singles.append(dict(s, faults=[{"pos": pos, "kind": kind}]))
+        for p1, p2 in itertools.combinations(range(1, n + 3), 2):
+            for k1, k2 in itertools.product(FAULTS, repeat=2):
+                doubles.append((s, p1, k1, p2, k2))
+        for cl in sorted(set(classes)) + [""]:
+            for kind in FAULTS:
+                for frm in (1, 2):
+                    if kind == "429ra" and s["R"] > 2:
+                        continue
+                    persist.append(dict(s, persist={"class": cl, "kind": kind, "from": frm}))
+    cov["l2_single_fault_space"] = len(singles)
+    cov["l2_double_fault_space"] = len(doubles)
+    cov["l2_persistent_fault_space"] = len(persist)
+    if thorough:
+        pick = singles + [dict(s, faults=[{"pos": p1, "kind": k1}, {"pos": p2, "kind": k2}])
+                          for s, p1, k1, p2, k2 in rng.sample(doubles, min(len(doubles), 3000))]
+        pick += rng.sample(persist, min(len(persist), 3000))
+    else:
+        pick = rng.sample(singles, min(len(singles), 450))
+        pick += [dict(s, faults=[{"pos": p1, "kind": k1}, {"pos": p2, "kind": k2}])
+                 for s, p1, k1, p2, k2 in rng.sample(doubles, min(len(doubles), 120))]
+        pick += rng.sample(persist, min(len(persist), 180))
+    scns = [dict(s, id="l2-%d" % i) for i, s in enumerate(pick)]
+    # Retry-After costs real seconds: keep those runs apart so that they overlap each other
+    scns.sort(key=lambda s: -sum(1 for f in s["faults"] if f["kind"] == "429ra") - (5 if (s.get("persist") or {}).get("kind") == "429ra" else 0))
+    traces = drive(ctx, "l2", scns, "l2", par=32, timeout=2400)
+    cov["l2_scenarios"] = len(scns)
+    cov["l2_operations"] = OPS
+    out = []
+    for t, s in zip(probes, base):
+        out.append({"id": t["id"], "events": t["events"], "header": t["header"],
+                    "scenario": {"layer": 2, "scenario": s}, "meta": t["meta"]})
+    for t, s in zip(traces, scns):
+        out.append({"id": t["id"], "events": t["events"], "header": t["header"],
+                    "scenario": {"layer": 2, "scenario": s}, "meta": t["meta"]})
+    return out
+
+
 # ---------------------------------------------------------------------- validation
-def validate(ctx, traces, classify, cov, what):
-    """Validate; traces rejected under the known finding S1 (priority order) are validated again
-    with the priority clause waived so that every other obligation is still checked on them."""
-    accepted, rejected = ctx.validate_batch("RegHttpTrace", "C12_trace.cfg", traces, timeout=3000, max_reports=100000)
-    again = []
-    nrej = 0
+def report(ctx, r):
+    t = r["trace"]
+    sig = classify(t, r)
+    ctx.report("c12:" + sig, "%s at event %s of trace %s" % (sig, json.dumps(r["event"]), t["id"]),
+               {"scenario": t["scenario"], "header": t["header"], "events": t["events"], "rejected_at": r["line"],
+                "cmd": "tools/check C12 --replay <this file>"})
+    return sig
+
+
+def validate_all(ctx, traces, tag):
+    """All traces in ONE TLC run (spec TSpecAll of RegHttpTrace: no invariant, every trace whose
+    monitor latched a violated obligation is printed).  Returns (accepted, rejected) like
+    vlib.validate_batch."""
+    import re
+    if not traces:
+        return 0, []
+    fn = ctx.path("traces", "c12-%s.ndjson" % tag)
+    index = []
+    with open(fn, "w") as f:
+        for ti, t in enumerate(traces + [{"id": "<end>", "header": traces[0]["header"], "events": []}]):
+            hdr = {"ev": "reset", "trace": str(t["id"])}
+            hdr.update(t["header"])
+            f.write(json.dumps(hdr, sort_keys=True) + "\n")
+            index.append((ti, -1))
+            for ei, ev in enumerate(t["events"]):
+                f.write(json.dumps(ev, sort_keys=True) + "\n")
+                index.append((ti, ei))
+    res = ctx.tlc("RegHttpTrace", "C12_trace_all.cfg", workers=1, timeout=3000, record=False,
+                  env={"VERIF_TRACE": fn, "JAVA_TOOL_OPTIONS": "-Dtlc2.tool.queue.IStateQueue=StateDeque -Xss64m"})
+    out = res["output"]
+    hw = re.findall(r'<<"HIGHWATER", (\d+), (\d+)>>', out)
+    if not hw or int(hw[-1][1]) != len(index) or int(hw[-1][0]) < len(index) + 1:
+        raise vlib.ToolError("batch validation did not consume the whole log (%s of %d lines):\n%s"
+                             % (hw[-1] if hw else "?", len(index), out[-3000:]))
+    ctx.cov["trace_states"] = ctx.cov.get("trace_states", 0) + res["distinct"]
+    rejected = []
+    for tid, bad, line in re.findall(r'<<"REJ", "([^"]*)", "([^"]*)", (\d+)>>', out):
+        ti, ei = index[int(line) - 1]
+        t = traces[ti]
+        if str(t["id"]) != tid:
+            raise vlib.ToolError("rejection of %s reported at a line of %s" % (tid, t["id"]))
+        rejected.append({"trace": t, "line": ei, "event": t["events"][ei] if ei >= 0 else None,
+                         "reason": "invariant Ok", "detail": bad, "state": ""})
+    return len(traces) - len(rejected), rejected
+
+
+def validate(ctx, traces, cov, what, s1_sample=6):
+    """Bulk validation waives exactly the pattern of the known finding S1 (host order = priorities
+    sorted the wrong way round; every other obligation, and every other order violation, is still
+    demanded).  S1 itself is then reported from a sample of the traces with distinct priorities,
+    validated without the waiver."""
+    bulk = []
+    for t in traces:
+        t2 = dict(t)
+        t2["header"] = dict(t["header"], waive=["prio-asc"])
+        bulk.append(t2)
+    accepted, rejected = validate_all(ctx, bulk, what)
+    sigs = {}
     for r in rejected:
-        t = r["trace"]
-        sig = classify(t, r)
-        what_s = "%s at event %s of trace %s" % (sig, json.dumps(r["event"]), t["id"])
-        new = ctx.report("c12:" + sig, what_s, {"scenario": t["scenario"], "header": t["header"], "events": t["events"],
-                                               "rejected_at": r["line"], "cmd": "tools/check C12 --replay <this file>"})
-        nrej += 1
-        if sig == "mirror-order:priority-ascending" and not new:
-            t2 = copy.deepcopy(t)
-            t2["header"]["waive"] = ["prio"]
-            t2["id"] = t["id"] + "+waived"
-            again.append(t2)
-    if again:
-        a2, r2 = ctx.validate_batch("RegHttpTrace", "C12_trace.cfg", again, timeout=3000, max_reports=100000)
-        accepted += a2
+        sig = report(ctx, r)
+        sigs[sig] = sigs.get(sig, 0) + 1
+    cand = [t for t in traces if len(set(t["header"]["prio"])) > 1 and any(e.get("mir") == 1 for e in t["events"])]
+    cand.sort(key=lambda t: (not str(t["id"]).startswith("order-"), str(t["id"])))
+    pick = cand[:s1_sample]
+    if pick:
+        _, r2 = validate_all(ctx, pick, what + "-s1")
         for r in r2:
-            t = r["trace"]
-            sig = classify(t, r)
-            ctx.report("c12:" + sig, "%s at event %s of trace %s" % (sig, json.dumps(r["event"]), t["id"]),
-                       {"scenario": t["scenario"], "header": t["header"], "events": t["events"], "rejected_at": r["line"]})
-            nrej += 1
-    cov[what + "_rejected"] = nrej
+            sig = report(ctx, r)
+            sigs[sig] = sigs.get(sig, 0) + 1
+    cov[what + "_rejected"] = sigs
     return accepted
 
 
@@ -222,7 +362,13 @@ def run(ctx):
     rng = random.Random(ctx.seed)
     ctx.build("c12drv")
     cov = {}
-    traces = run_l1(ctx, rng, cov)
-    accepted = validate(ctx, traces, l1_classify, cov, "l1")
+    only = (ctx.replay and None) or __import__("os").environ.get("C12_ONLY", "")
+    accepted = 0
+    if only in ("", "l1"):
+        traces = run_l1(ctx, rng, cov)
+        accepted += validate(ctx, traces, cov, "l1")
+    if only in ("", "l2"):
+        traces2 = run_l2(ctx, rng, cov)
+        accepted += validate(ctx, traces2, cov, "l2")
     cov["traces_validated_against_impl"] = accepted
     return "model_checking", cov, []
